@@ -108,6 +108,14 @@ def native_filter(env):
 
 
 def judge(env, tex, lang, parts, pi, o, l, T, fixed, nt=_Null):
+    try:
+        return _judge(env, tex, lang, parts, pi, o, l, T, fixed, nt)
+    except SystemExit as ex:
+        # the answer is well-formed and in range: the shell has no reason to give up
+        return 'C14 the shell stopped (exit status %r) on a well-formed answer' % (ex.code,)
+
+
+def _judge(env, tex, lang, parts, pi, o, l, T, fixed, nt=_Null):
     """run the real aggregation + all generators for a match (o, l) in part pi plus a fixed
     second match; compare with the reference"""
     cmd = env.cmdline
